@@ -1096,11 +1096,23 @@ class Engine(Interp):
                 out.append(('unwind', s, None))
                 continue
             if self.may_unwind(eff) and not s.unwinding:
-                u = s.fork()
-                u.unwinding = True
-                u.log('panic', 'core', nm, self.panic_just(u))
-                self.stats['escapes'] += 1
-                out.append(('unwind', u, None))
+                # whose panic it is: a core function that runs user code inside (the Clone shim of a tuple, the
+                # default clone_from, a formatting helper that calls through dyn) may unwind because that user
+                # code panicked -- an escape of the user's (C04), not a panic of the crate's own
+                usr = bool(eff.get('user') or eff.get('dyn') or eff.get('opaque'))
+                own = bool(eff.get('unwind') or eff.get('errors')) or not usr
+                if usr:
+                    u = s.fork()
+                    u.unwinding = True
+                    u.log('panic', 'user', nm)
+                    self.stats['escapes'] += 1
+                    out.append(('unwind', u, None))
+                if own:
+                    u = s.fork()
+                    u.unwinding = True
+                    u.log('panic', 'core', nm, self.panic_just(u))
+                    self.stats['escapes'] += 1
+                    out.append(('unwind', u, None))
             diverges = dest_ty is not None and dest_ty.get('k') == 'never'
             if diverges:
                 continue
